@@ -123,7 +123,58 @@ def check_one(rep, h):
                 q, sorted({(a[1][1], a[2] // tsz) for a in lds})[:8], sorted(a[1] for a in cs), q, 2 ** N, N))
             continue
         rep.ok("C03.d", qi)
-        p = ir.to_poly(t, 'real', atomize=atomize)
+        # precision: only the coordinate's and the stored value's floating types may appear
+        allowed = {F, T}
+        badc = []
+
+        def pf(x):
+            if x[0] in ('op', 'cast', 'fn') and x[2] in ('float', 'double', 'half', 'x86_fp80', 'fp128') and x[2] not in allowed:
+                badc.append(x)
+        ir.walk(t, pf)
+        if badc:
+            rep.fail("C03.f", qi, FILE, "interpolation computes in %s although coordinate is %s and stored values are %s: %s" % (badc[0][2], F, T, ir.show(badc[0])[:140]))
+        else:
+            rep.ok("C03.f", qi)
+        memo = {}
+        p = ir.to_poly(t, 'real', atomize=atomize, memo=memo)
+        # C03.g: every intermediate value that involves stored values is a sub-convex combination of them
+        # for all fractional parts in [0,1]^N (coefficients are multilinear, so the cube's vertices decide)
+        worst = None
+        for x, px in memo.items():
+            if x[0] not in ('op', 'fn', 'cast') or not any(a[0] == 'ld' for mon in px.t for a in mon):
+                continue
+            coeff = {}      # P atom -> {vertex: value}
+            multilinear = True
+            for mon, cf in px.t.items():
+                lds = [a for a in mon if a[0] == 'ld']
+                fr = [a for a in mon if a[0] == 'frac']
+                rest = [a for a in mon if a[0] not in ('ld', 'frac')]
+                if len(lds) != 1 or rest or len(set(fr)) != len(fr):
+                    if lds:
+                        multilinear = False
+                    continue
+                for v in itertools.product((0, 1), repeat=N):
+                    val = cf
+                    for a in fr:
+                        val = val * v[a[1]]
+                    coeff.setdefault(lds[0], {}).setdefault(v, 0)
+                    coeff[lds[0]][v] += val
+            if not multilinear:
+                raise AnalysisBroken("C03 %s: intermediate value is not multilinear in the fractional parts; convexity rule cannot decide: %s" % (qi, ir.show(x)[:120]))
+            for v in itertools.product((0, 1), repeat=N):
+                tot = sum(cv.get(v, 0) for cv in coeff.values())
+                neg = [cv.get(v, 0) for cv in coeff.values() if cv.get(v, 0) < 0]
+                if neg or tot > 1:
+                    worst = (x, v, neg, tot)
+                    break
+            if worst:
+                break
+        if worst:
+            x, v, neg, tot = worst
+            rep.fail("C03.g", qi, FILE, "an intermediate value combines stored values with %s at fractional parts %s: not a convex combination, it can overflow or leave the range of the neighbours for large finite data: %s" % (
+                "a negative weight" if neg else "weights summing to %s" % tot, list(v), ir.show(x)[:140]))
+        else:
+            rep.ok("C03.g", qi)
         exp = ir.Poly({})
         one = ir.Poly.const(Fraction(1))
         for c, vec in zip(sinks, offs):
@@ -147,6 +198,8 @@ def declare(rep):
     rep.rule("C03.b", "argument k of every query is int(c_k)+b, b in {0,1}, and depends on c_k only", floor=8)
     rep.rule("C03.c", "the 2^N offset vectors are exactly {0,1}^N, each once", floor=8)
     rep.rule("C03.d", "output q depends on all coordinates and on component q (only) of every queried value", floor=16)
+    rep.rule("C03.g", "every intermediate that involves stored values is a sub-convex combination of them on [0,1]^N (range clause for arbitrary finite data)", floor=16)
+    rep.rule("C03.f", "precision: every floating operation is performed in the coordinate's or the stored value's type, never a narrower third one", floor=16)
     rep.rule("C03.e", "output q == sum_n prod_k (b_k(n) ? f_k : 1-f_k) * P[n][q] as a real-ring polynomial (D-poly)", floor=16)
 
 
@@ -165,8 +218,12 @@ def combos(tier):
     return out
 
 
+def harnesses(tier):
+    return [make(*c) for c in combos(tier)]
+
+
 def run(rep, tier):
-    hs = [make(*c) for c in combos(tier)]
+    hs = harnesses(tier)
     harness.build(hs, "c03", per_tu=6)
     for h in hs:
         check_one(rep, h)
